@@ -53,10 +53,8 @@
       - common.LegacyOwnerKey = "contractOwner" (common/update.go:8): no
         migration of the source reads or deletes it, the model has no such key
         (it is put into the legacy storages below and must survive).
-    neofs, processing and proxy have no version gate ([deploy_trivial]); Params.v
-    emits a p_<pkg>_deploy_version_gates list only for contracts that have one,
-    so their absence is tied through the integer literals of the three _deploy
-    bodies (tie_trivial_no_gate). *)
+    neofs, processing and proxy have no version gate ([deploy_trivial]): their
+    p_<pkg>_deploy_version_gates lists are empty (tie_trivial_no_gate). *)
 From Coq Require Import ZArith NArith List String Ascii.
 Import ListNotations.
 From Verif Require Import Base.Prelude Base.IntCodec Gen.Params Model.MigStore Model.Migration Proofs.TiesLib.
@@ -571,9 +569,11 @@ Proof. vm_compute. reflexivity. Qed.
       _deploy bodies can be a version gate: a gate below PrevVersion is dead code
       (CheckVersion has refused such a version before). *)
 Lemma tie_trivial_no_gate :
+  p_neofs_deploy_version_gates = [] /\ p_processing_deploy_version_gates = [] /\
+  p_proxy_deploy_version_gates = [] /\
   p_processing__deploy_intlits = [1] /\ p_proxy__deploy_intlits = [1] /\
   forallb (fun z => z <? p_common_PrevVersion) p_neofs__deploy_intlits = true.
-Proof. split; [reflexivity|]. split; reflexivity. Qed.
+Proof. do 5 (split; [reflexivity|]). reflexivity. Qed.
 
 Lemma tie_deploy_trivial :
   map (fun v => dump (deploy_trivial real_prev real_version E0 [IInt v] s0_audit))
@@ -586,7 +586,7 @@ Proof. vm_compute. reflexivity. Qed.
       and becomes Version. *)
 Definition MS (m : Z) (ks : list bytes) : bytes := Z.to_N m :: concat ks.
 Definition K1 : bytes := [1%N].
-Definition gate_env : env := env_basic 1000 [K1] [K1] [MS 1 [K1]].
+Definition gate_env : env := env_basic 1000 [K1] [(0, [K1])] [MS 1 [K1]].
 Definition upd (c : contract) (s : store) (vold : Z) : option (kvs * Z) :=
   match update MS (fun k => Some k) (fun x => x) real_prev real_version c gate_env true INull (mkC s vold) with
   | Halt st => Some (sdump (c_store st), c_version st)
